@@ -541,3 +541,38 @@ Section SerInst.
     else ser_inst (S fuel) (c_name c) attrs.
 End SerInst.
 End EI.
+
+(* ------------------------------------------------------------------ nested mappers of inline structures *)
+(* An aggregated serialization mapper is a tree: string renames of the class's own keys, and, under
+   "<name>._mapper", the tree for the inline structure (StructureReference / Array of them) held by a field.
+   WHICH name the entry is looked up under is a fact of the source, regenerated on every run for the schema
+   export (_generate_schema_for_fields_internal) and for the serializer (serialize_internal). *)
+Inductive lookup_name := ByAttrName | ByMappedName | LookupOther.
+
+Inductive mtree := MT (ren : renames) (subs : list (pystr * mtree)).
+Definition mt_ren (t : mtree) : renames := match t with MT r _ => r end.
+Definition mt_subs (t : mtree) : list (pystr * mtree) := match t with MT _ s => s end.
+
+Definition lookup_key (k : lookup_name) (m : renames) (key : pystr) : option pystr :=
+  match k with
+  | ByAttrName => Some key
+  | ByMappedName => Some (rename m key)
+  | LookupOther => None
+  end.
+
+(* mapper.get(f"{<name>}._mapper", {}) : the renames applied to the keys of the inline structure held by [key] *)
+Definition sub_renames (k : lookup_name) (t : mtree) (key : pystr) : renames :=
+  match lookup_key k (mt_ren t) key with
+  | Some n => match alist_get (mt_subs t) n with Some t' => mt_ren t' | None => [] end
+  | None => []
+  end.
+
+(* StructureReferenceMapper.to_schema: the schema of the inline class under the sub-mapper found by the export;
+   (for a class in object form "type": "object" is already there) *)
+Definition inline_schema (ei : einfo_t) (kS : lookup_name) (t : mtree) (key : pystr) (c : classdef) : schema :=
+  class_schema ei (sub_renames kS t key) c.
+
+(* serialize_internal on the value of the field: the inline instance under the sub-mapper found by the serializer *)
+Definition inline_ser (ei : einfo_t) (re_match : N -> pystr -> bool) (e : env) (kR : lookup_name) (t : mtree)
+           (key : pystr) (fuel : nat) (c : classdef) (attrs : list (pystr * pyval)) : option pyval :=
+  ser_inst ei re_match e (fun _ => sub_renames kR t key) (S fuel) (c_name c) attrs.
